@@ -178,20 +178,41 @@ func (p *Pkg) anyBits(e ast.Expr, locals map[types.Object][]BitPos) ([]BitPos, b
 		if !ok || !isUint8(tv.Type) {
 			return nil, false
 		}
-		bv, err := newBvEnv(p).eval(sel)
-		if err != nil {
-			return nil, false
-		}
-		ins, clean := bv.inBits()
-		if !clean {
-			return nil, false
-		}
-		for _, b := range bv {
-			if b.K == BOne {
-				return nil, false // constant-true test
+		return p.orBits(sel)
+	}
+	return nil, false
+}
+
+// orBits: the input bits whose disjunction decides `sel != 0`. A bitwise OR
+// of parts is non-zero exactly when some part is; each part must be a pure
+// selection of receiver bits (no constant one bits, no mixing).
+func (p *Pkg) orBits(sel ast.Expr) ([]BitPos, bool) {
+	bv, err := newBvEnv(p).eval(sel)
+	if err == nil {
+		if ins, clean := bv.inBits(); clean {
+			for _, b := range bv {
+				if b.K == BOne {
+					return nil, false // constant-true test
+				}
 			}
+			return ins, true
 		}
-		return ins, true
+	}
+	switch x := sel.(type) {
+	case *ast.ParenExpr:
+		return p.orBits(x.X)
+	case *ast.BinaryExpr:
+		if x.Op == token.OR {
+			a, ok := p.orBits(x.X)
+			if !ok {
+				return nil, false
+			}
+			b, ok := p.orBits(x.Y)
+			if !ok {
+				return nil, false
+			}
+			return append(append([]BitPos(nil), a...), b...), true
+		}
 	}
 	return nil, false
 }
